@@ -19,7 +19,9 @@ What is proved here (model M4):
   and of the service registry, unique keys and cookie freshness (`registry_gauges_all_histories`);
 * run-loop exit condition (`finished_iff`), broker shutdown queues every connection for removal with
   a Shutdown message and sets the flag (`broker_shutdown_queues_all`), and the turn that handles it ends with no
-  connection left, nothing deferred and the exit condition true (`broker_shutdown_completes`, from any state); idle
+  connection left, nothing deferred and the exit condition true (`broker_shutdown_completes`, from any state); a
+  connection removed with notice whose task still takes messages gets `Shutdown` first
+  (`removal_with_notice_sends_shutdown_first`); idle
   shutdown only sets its flag (`idle_shutdown_sets_flag`).
 * in every reachable state (fewer than 2³² calls pending at a time) a call whose caller is no longer connected has
   been ended on the caller's side: it is marked aborted, so nothing will ever be delivered for it
@@ -44,6 +46,7 @@ import Aldrin.Lemmas.Broker.Reg
 import Aldrin.Lemmas.Broker.Own
 import Aldrin.Lemmas.Broker.Callee
 import Aldrin.Lemmas.Broker.Shutdown
+import Aldrin.Lemmas.Broker.OutGrows
 
 namespace Aldrin.Broker
 open Generated
@@ -99,6 +102,15 @@ removal takes its connection out of the map and keeps the rest of the queue, `Le
 theorem broker_shutdown_completes {b b' : Broker} {w w' : Work} {out : List Out}
     (hr : step b w .shutdownBroker = .ok (b', w', out)) : b'.conns = [] ∧ w'.idle ∧ finished b' w' = true :=
   shutdownBroker_completes hr
+
+/-- **A connection removed with notice gets `Shutdown` first.** The removal of a connection queued by a broker
+shutdown or forced through the handle (`send_shutdown = true`), whose task still takes messages, puts `Shutdown` into
+that connection's queue before anything else the removal sends to anybody; nothing that was in the queues before is
+lost or reordered (`Lemmas/Broker/OutGrows.lean`: the output of a turn only grows at its end). -/
+theorem removal_with_notice_sends_shutdown_first {s s' : St} {id : ConnId} {conn : Conn} (hconn : AL.find? id s.b.conns = some conn)
+    (ha : conn.alive = true) (hr : shutdownConnection s id true = .ok s') :
+    ∃ rest, s'.out = s.out ++ [⟨id, .shutdown, none⟩] ++ rest :=
+  shutdownConnection_sends_shutdown hconn ha hr
 
 theorem idle_shutdown_sets_flag (s s' : St) (h : handleEvent s .shutdownIdle = .ok s') :
     s'.w.shutdownIdle = true ∧ s'.b = s.b ∧ s'.out = s.out := by
